@@ -296,6 +296,20 @@ func (s *Sim) lockByQueries(b *WB, o *Op) (fd *Finding) {
 				fd = finding(CatLock, "%s: %d lock bits set with %d queries open (after releasing one by %s)", b.Name, lc, remaining, o.ScriptKind(qi))
 				return
 			}
+			if (qi+o.N+len(o.Script))%3 == 0 {
+				// "released exactly once": closing the query that has just ended a second time (the code
+				// refuses it as an unbalanced unlock) releases nothing that other open queries hold
+				p2 := Call(func() { qs[qi].Close() })
+				if b.W.IsLocked() != (remaining > 0) {
+					fd = finding(CatLock, "%s: closing an already released query again (panic: %v) changed IsLocked to %v with %d queries still open", b.Name, p2, b.W.IsLocked(), remaining)
+					return
+				}
+				if lc := LockCount(b.W); lc >= 0 && lc != remaining {
+					fd = finding(CatLock, "%s: closing an already released query again (panic: %v) left %d lock bits set with %d queries open", b.Name, p2, lc, remaining)
+					return
+				}
+				s.label("released query closed again")
+			}
 			if remaining > 0 && len(o.Sub) > 0 {
 				// still locked: a structural call must still be rejected
 				a := &o.Sub[qi%len(o.Sub)]
